@@ -131,11 +131,11 @@ func (p *c18Plan) paramsStep() c18Step {
 
 // execMsg builds a top-level execute on contract id c by signer.
 func (p *c18Plan) execMsg(c, signer int) c18Msg {
-	m := c18Msg{K: "exec", C: c, Good: !p.r.Chance(1, 12), Nested: -1, W: -1}
+	m := c18Msg{K: "exec", C: c, Good: !p.r.Chance(1, 12)}
 	if p.isContract(c) && p.cs.Contracts[c-idContract0].Kind == "reflect" {
-		m.Nested = p.anyContract()
+		m.Nested = 1 + p.anyContract()
 		if p.r.Chance(1, 10) {
-			m.Nested = idNoContr
+			m.Nested = 1 + idNoContr
 		}
 	}
 	return m
@@ -154,12 +154,12 @@ func (p *c18Plan) regTx(ci int, valid bool) c18Step {
 		}
 	}
 	p.registered[c] = true
-	return c18Step{Op: "tx", Signer: signer, Fee: p.fee(), Msgs: []c18Msg{{K: "reg", C: c, W: w, Nested: -1}}}
+	return c18Step{Op: "tx", Signer: signer, Fee: p.fee(), Msgs: []c18Msg{{K: "reg", C: c, W: w}}}
 }
 
 func (p *c18Plan) execTx() c18Step {
 	signer := p.anySigner()
-	n := p.r.Pick(1, 5, 4, 3, 2, 2)
+	n := 1 + p.r.Pick(5, 4, 3, 2, 2)
 	var msgs []c18Msg
 	for i := 0; i < n; i++ {
 		c := p.anyContract()
@@ -182,7 +182,7 @@ func (p *c18Plan) execTx() c18Step {
 			c = idNoContr
 		}
 		m := p.execMsg(c, signer)
-		if m.Nested >= 0 && p.cs.Contracts[c-idContract0].Creator != signer && p.r.Chance(3, 4) {
+		if m.Nested > 0 && p.cs.Contracts[c-idContract0].Creator != signer && p.r.Chance(3, 4) {
 			signer = p.cs.Contracts[c-idContract0].Creator // the owner, so that the dispatch succeeds
 			if !isSigner(signer) {
 				signer = p.anySigner()
@@ -191,16 +191,16 @@ func (p *c18Plan) execTx() c18Step {
 		switch p.r.Pick(12, 2) {
 		case 1:
 			inner := m
-			m = c18Msg{K: "wrap", M: &inner, Nested: -1, C: -1, W: -1}
+			m = c18Msg{K: "wrap", M: &inner}
 			if p.r.Chance(1, 4) {
 				in2 := m
-				m = c18Msg{K: "wrap", M: &in2, Nested: -1, C: -1, W: -1}
+				m = c18Msg{K: "wrap", M: &in2}
 			}
 		}
 		msgs = append(msgs, m)
 	}
 	if p.r.Chance(1, 5) {
-		msgs = append(msgs, c18Msg{K: "other", Good: !p.r.Chance(1, 4), Nested: -1, C: -1, W: -1})
+		msgs = append(msgs, c18Msg{K: "other", Good: !p.r.Chance(1, 4)})
 	}
 	if msgs == nil {
 		msgs = []c18Msg{}
@@ -218,25 +218,25 @@ func (p *c18Plan) manageTx() c18Step {
 	var msgs []c18Msg
 	switch p.r.Pick(4, 3, 2, 2) {
 	case 0:
-		msgs = []c18Msg{{K: "upd", C: c, W: p.anyWithdrawer(ci), Nested: -1}}
+		msgs = []c18Msg{{K: "upd", C: c, W: p.anyWithdrawer(ci)}}
 	case 1:
-		msgs = []c18Msg{{K: "cancel", C: c, Nested: -1, W: -1}}
+		msgs = []c18Msg{{K: "cancel", C: c}}
 		if signer == p.authority(ci) {
 			delete(p.registered, c)
 		}
 	case 2:
 		// registry message and an execute of the same contract in one tx (payout uses the registry before the tx)
-		msgs = []c18Msg{{K: "reg", C: c, W: p.anyWithdrawer(ci), Nested: -1}, p.execMsg(c, signer), p.execMsg(p.anyContract(), signer)}
+		msgs = []c18Msg{{K: "reg", C: c, W: p.anyWithdrawer(ci)}, p.execMsg(c, signer), p.execMsg(p.anyContract(), signer)}
 		if p.r.Chance(1, 2) {
 			msgs[0], msgs[1] = msgs[1], msgs[0]
 		}
 		p.registered[c] = true
 	default:
 		// registry message hidden in an authz exec, or several registry messages
-		in := c18Msg{K: []string{"reg", "upd", "cancel"}[p.r.Intn(3)], C: c, W: p.anyWithdrawer(ci), Nested: -1}
-		msgs = []c18Msg{{K: "wrap", M: &in, Nested: -1, C: -1, W: -1}}
+		in := c18Msg{K: []string{"reg", "upd", "cancel"}[p.r.Intn(3)], C: c, W: p.anyWithdrawer(ci)}
+		msgs = []c18Msg{{K: "wrap", M: &in}}
 		if p.r.Chance(1, 2) {
-			msgs = append(msgs, c18Msg{K: []string{"reg", "upd", "cancel"}[p.r.Intn(3)], C: p.anyContract(), W: p.anyWithdrawer(ci), Nested: -1})
+			msgs = append(msgs, c18Msg{K: []string{"reg", "upd", "cancel"}[p.r.Intn(3)], C: p.anyContract(), W: p.anyWithdrawer(ci)})
 		}
 	}
 	return c18Step{Op: "tx", Signer: signer, Fee: p.fee(), Msgs: msgs}
@@ -329,16 +329,7 @@ func genC18Case(r *Rng) c18Case {
 func norm(cs c18Case) c18Case {
 	for i := range cs.Steps {
 		st := &cs.Steps[i]
-		if st.Allowed == nil {
-			st.Allowed = []int{}
-		}
-		if st.Fee == nil {
-			st.Fee = [][2]string{}
-		}
-		if st.Msgs == nil {
-			st.Msgs = []c18Msg{}
-		}
-		if st.Share == "" {
+		if st.Op == "params" && st.Share == "" {
 			st.Share = "0"
 		}
 	}
@@ -349,7 +340,7 @@ func tx(signer int, fee [][2]string, msgs ...c18Msg) c18Step {
 	return c18Step{Op: "tx", Signer: signer, Fee: fee, Msgs: msgs}
 }
 
-func ex(c int) c18Msg { return c18Msg{K: "exec", C: c, Good: true, Nested: -1, W: -1} }
+func ex(c int) c18Msg { return c18Msg{K: "exec", C: c, Good: true} }
 
 func c18Openers() []c18Case {
 	f := func(kv ...string) [][2]string {
@@ -359,7 +350,7 @@ func c18Openers() []c18Case {
 		}
 		return out
 	}
-	reg := func(c, w int) c18Msg { return c18Msg{K: "reg", C: c, W: w, Nested: -1} }
+	reg := func(c, w int) c18Msg { return c18Msg{K: "reg", C: c, W: w} }
 	two := []c18Contract{{Kind: "hello", Creator: 3, Admin: -1}, {Kind: "hello", Creator: 3, Admin: 4}}
 	return []c18Case{
 		// share 1, fee 3, two recipients: 1.5 rounds (half-even) to 2 each = 4 > fee; first tx of a block has
@@ -369,7 +360,7 @@ func c18Openers() []c18Case {
 			tx(3, f("2", "1000"), reg(8, 6)), tx(4, f("2", "1000"), reg(9, 7)),
 			{Op: "block"},
 			tx(5, f("2", "3"), ex(8), ex(9)),
-			tx(5, f("2", "100"), c18Msg{K: "other", Good: true, Nested: -1}),
+			tx(5, f("2", "100"), c18Msg{K: "other", Good: true}),
 			tx(5, f("2", "3"), ex(8), ex(9)),
 			tx(5, f("2", "1"), ex(8), ex(9)),
 			tx(5, f("2", "2"), ex(8), ex(9), ex(8)),
@@ -383,20 +374,20 @@ func c18Openers() []c18Case {
 			tx(5, f("2", "10"), reg(9, 9)),  // ok, anyone
 			tx(5, f("2", "10"), reg(10, 10)), // creator is a contract, no admin: factory
 			{Op: "admin", C: 8, Admin: 5},
-			tx(4, f("2", "10"), c18Msg{K: "upd", C: 8, W: 7, Nested: -1}), // former admin
-			tx(5, f("2", "10"), c18Msg{K: "upd", C: 8, W: 7, Nested: -1}),
-			tx(3, f("2", "10"), c18Msg{K: "cancel", C: 8, Nested: -1}),
+			tx(4, f("2", "10"), c18Msg{K: "upd", C: 8, W: 7}), // former admin
+			tx(5, f("2", "10"), c18Msg{K: "upd", C: 8, W: 7}),
+			tx(3, f("2", "10"), c18Msg{K: "cancel", C: 8}),
 			tx(5, f("0", "7", "2", "10"), ex(8), ex(9), ex(10)),
-			tx(5, f("2", "10"), c18Msg{K: "cancel", C: 8, Nested: -1}),
-			tx(5, f("0", "7", "2", "10"), ex(8), c18Msg{K: "wrap", M: &c18Msg{K: "exec", C: 9, Good: true, Nested: -1}, Nested: -1}),
+			tx(5, f("2", "10"), c18Msg{K: "cancel", C: 8}),
+			tx(5, f("0", "7", "2", "10"), ex(8), c18Msg{K: "wrap", M: &c18Msg{K: "exec", C: 9, Good: true}}),
 		}}),
 		// disabled, allowed-denom filter, nested dispatch through a reflect contract, blocked withdrawer
 		norm(c18Case{Contracts: []c18Contract{{Kind: "hello", Creator: 3, Admin: -1}, {Kind: "reflect", Creator: 3, Admin: -1}, {Kind: "hello", Creator: 4, Admin: 4}}, Steps: []c18Step{
 			{Op: "params", Enabled: true, Share: "333333333333333333", Allowed: []int{0, 2}},
 			tx(3, f("2", "100"), reg(8, 6), reg(9, 7)),
 			tx(4, f("2", "100"), reg(10, 2)),
-			tx(3, f("0", "5", "1", "1000", "2", "7"), c18Msg{K: "exec", C: 9, Good: true, Nested: 8}),
-			tx(3, f("0", "5", "1", "1000", "2", "7"), ex(8), c18Msg{K: "exec", C: 9, Good: true, Nested: 8}, ex(8)),
+			tx(3, f("0", "5", "1", "1000", "2", "7"), c18Msg{K: "exec", C: 9, Good: true, Nested: 9}),
+			tx(3, f("0", "5", "1", "1000", "2", "7"), ex(8), c18Msg{K: "exec", C: 9, Good: true, Nested: 9}, ex(8)),
 			tx(3, f("2", "100"), ex(10)), // blocked withdrawer: whole tx rejected
 			{Op: "params", Enabled: false, Share: "333333333333333333"},
 			tx(3, f("2", "100"), ex(8)),
